@@ -10,6 +10,7 @@ import itertools
 import os
 import random
 import sys
+import time
 
 sys.path.insert(0, os.path.dirname(os.path.abspath(__file__)))
 import _pool_util as PU  # noqa: E402
@@ -36,6 +37,8 @@ BOUNDS = {
                              "slow factory with quota 1"],
         "container_valued_elements": "input elements that are themselves lists / tuples (one of them empty): |data| in {1, 2, 4} x chunk 1..2 x "
                                      "{imap, imap_unordered} x {FunctorPool, FactoryFunctorPool quota 2} (48)",
+        "two_pools": "two pools alive at once: an ordered call suspended after its first value (out-of-order chunks buffered), a complete call "
+                     "on the other pool, then the first call drained (FunctorPool, FactoryFunctorPool)",
         "random": "12 random configurations with |data| 6..12",
     },
     "thorough": {
@@ -111,6 +114,8 @@ def cases(tier, seed):
                                                         (True, False), ("functor", "factory")):
         yield {"kind": "container-valued-elements", "cfg": _cfg(pool, 2, 1.0, None, 2 if pool == "factory" else None),
                "calls": [{"ordered": ordered, "n": n, "cs": cs, "elem": elem}]}
+    for pool in ("functor", "factory"):
+        yield {"kind": "two-pools-interleaved", "cfg": _cfg(pool, 2, 1.0, None), "n": 6}
     rng = random.Random(seed)
     for _ in range(12 if quick else 150):
         pool = rng.choice(["functor", "factory"])
@@ -121,5 +126,28 @@ def cases(tier, seed):
                           "cs": rng.randint(1, 3 if quick else 7), "lazy": rng.random() < 0.5}]}
 
 
+def _two_pools(case):
+    """two ordered calls on two different pools alive at the same time: the first call is suspended after its first value while out-of-order
+    chunks sit in its reorder buffer, a complete call on the other pool runs, then the first call is drained. Both are fully consumed."""
+    a_vals = list(range(10, 10 + case["n"]))
+    b_vals = list(range(500, 500 + case["n"]))
+    pool_a = PU.make_pool(dict(case["cfg"], slow_value=a_vals[0], slow_s=case.get("slow_s", 0.6)))
+    pool_b = PU.make_pool(case["cfg"])
+    with pool_a, pool_b:
+        it = pool_a.imap(list(a_vals), 1)
+        got_a = [next(it)]
+        time.sleep(0.2)
+        got_b = list(pool_b.imap(list(b_vals), 1))
+        got_a += list(it)
+    exp_a, exp_b = [PU.f_ref(x) for x in a_vals], [PU.f_ref(x) for x in b_vals]
+    if got_b != exp_b:
+        return {"ok": False, "trivial": False, "scenario": "imap/two-pools-interleaved/second-pool-results", "expected": exp_b, "observed": got_b}
+    if got_a != exp_a:
+        return {"ok": False, "trivial": False, "scenario": "imap/two-pools-interleaved/first-pool-results", "expected": exp_a, "observed": got_a}
+    return {"ok": True, "trivial": False, "scenario": "imap/two-pools-interleaved", "expected": None, "observed": None}
+
+
 def run_case(case):
+    if case.get("kind") == "two-pools-interleaved":
+        return PU.guarded(lambda: _two_pools(case), BODY_TIMEOUT_S, "imap/two-pools-interleaved")
     return PU.guarded(lambda: PU.pool_history_body(case, "imap", judge_exit=False), BODY_TIMEOUT_S, "imap/" + case.get("kind", "?"))
